@@ -6,6 +6,8 @@ import DracoProofs.EbIntSqrt
 import DracoProofs.EbCTIso
 import DracoProofs.EbHyps
 import DracoProofs.EbChain
+import DracoProofs.EbSeams
+import DracoProofs.EbCreateProps
 /-
   C01 (staging) — facts about the Edgebreaker mesh decoder model (DracoModel/Eb*.lean).
   The model is tied to the real decoder by the correspondence of C01 (tools/props/ebcases.py);
@@ -117,8 +119,9 @@ example : intSqrt 1000000 = 1000 ∧ intSqrt 999999 = 999 ∧ intSqrt (2 ^ 64 - 
         sequence reads back the block the encoder wrote on its own sequence;
       * `eb_ctiso_sound`: the Boolean `ctIso` the op evaluates implies the Prop-level isomorphism `CTIso`.
       Missing for the full implication (evaluated per case — `rt-ok`, `iso-ok`, `hyp-ok` —, not proved):
-      `seams_correspond` (the seam bits decoded along the decoder's face order mark the images of the encoder's
-      seam edges — it is the checked hypothesis `tvIso` for attribute tables), `assign_points_correspond` (the
+      the isomorphism of the ATTRIBUTE views (`eb_seams_correspond` / `eb_seam_flags_correspond` give the seam
+      flags from CTIso and the bit buffers; the equivariance of `RecomputeVertices` is missing — the checked
+      hypothesis `tvIso` covers it), `assign_points_correspond` (the
       decoder's point ids realise the encoder's corner → attribute value relation — the checked hypothesis
       `decParent` is its instance for the parent attribute), the connectivity round trip itself (that the decoder
       builds a table with `ctIso`), the attribute section as a whole and the step from the portable values to
@@ -577,6 +580,63 @@ example : ∃ s', decodeIntegerValuesEb 1 3 2 2 exTriangle #[1, 2, 0] (some exPa
     ⟨#[1, 2, 0], #[1, 2, 0], #[2, 0, 1]⟩ ⟨#[1, 2, 0], #[1, 2, 0], #[2, 0, 1]⟩ (some exParentD) #[0] #[0, 1, 2] #[0, 1, 2]
     #[0, 1, 2] #[0, 1, 2] #[0, 1, 2] #[inv, inv, inv] 3 exBlockHypsIso rfl (Or.inl ⟨exTravD, exTravE⟩) rfl rfl exTexBlock
     _ [9] rfl rfl
+
+open Draco.EbEnc in
+/-- (b) **seams_correspond**: under `CTIso` the encoder's loop over `processed` (`encodeSeamBits`: one bit per
+    attribute and interior edge, taken from the side whose face comes first) and the decoder's loop over its faces
+    (`decodeSeams`, bit decoders that yield the encoder's bits: `eb_bit_buffer_roundtrip`) meet the SAME edges in the
+    same order: the decoder succeeds and its seam corners of attribute `i` are exactly the boundary corners and the
+    corners — of the first of the two faces — whose image carries the encoder's seam flag.  `NoSelfOpp`: no corner
+    of the decoder's table is opposite to a corner of its own face (needed: there the decoder would read a bit the
+    encoder did not write; follows from the same property of the encoder's table, `CTIso.noSelfOpp`). -/
+theorem eb_seams_correspond {t : CT} {p : Array Nat} {n : Nat} {dc2v dopp : Array Nat}
+    (h : CTIso t p n dc2v dopp) (hC : t.numCorners ≤ inv) (hns : NoSelfOpp dopp n)
+    (edgeSeams : Array (Array Bool)) (encs : Array RAnsBitEnc) (seamBits : Array (Array Bool)) (decs : Array RAnsBitDec)
+    (he : encodeSeamBits t p edgeSeams = .ok (encs, seamBits))
+    (hds : decs.size = edgeSeams.size)
+    (hy : ∀ i (hi : i < decs.size), Yields RAnsBitDec.nextBit decs[i] (seamBits[i]!).toList) :
+    ∃ seams tags, decodeSeams false dopp n edgeSeams.size decs = .ok (seams, tags) ∧ seams.size = edgeSeams.size ∧
+      ∀ i, i < edgeSeams.size → ∀ c, c < 3 * n →
+        (c ∈ seams[i]! ↔
+          (dopp[c]! = inv ∨ (dopp[c]! ≠ inv ∧ c / 3 < dopp[c]! / 3 ∧ edgeSeams[i]![phi p c]! = true))) :=
+  seams_correspond h hC hns edgeSeams encs seamBits decs he hds hy
+
+open Draco.EbEnc in
+/-- (b) … and the seam FLAGS of the decoder's attribute table (`buildAttConn`, which marks the seam corners and their
+    opposites) are the images of the encoder's flags, when the encoder's flags are symmetric across an edge and set on
+    the boundary edges of the processed faces (what `InitFromAttribute` produces) and the encoder's `Opposite` is an
+    involution -/
+theorem eb_seam_flags_correspond {t : CT} {p : Array Nat} {n : Nat} {dc2v dopp : Array Nat}
+    (h : CTIso t p n dc2v dopp) (hC : t.numCorners ≤ inv) (hns : NoSelfOpp dopp n) (hinvol : CTOppInvol t)
+    (edgeSeams : Array (Array Bool)) (encs : Array RAnsBitEnc) (seamBits : Array (Array Bool)) (decs : Array RAnsBitDec)
+    (he : encodeSeamBits t p edgeSeams = .ok (encs, seamBits))
+    (hds : decs.size = edgeSeams.size)
+    (hy : ∀ i (hi : i < decs.size), Yields RAnsBitDec.nextBit decs[i] (seamBits[i]!).toList) :
+    ∃ seams tags, decodeSeams false dopp n edgeSeams.size decs = .ok (seams, tags) ∧ seams.size = edgeSeams.size ∧
+      ∀ i, i < edgeSeams.size →
+        (∀ c, c < t.numCorners → t.opp[c]! ≠ inv → edgeSeams[i]![t.opp[c]!]! = edgeSeams[i]![c]!) →
+        (∀ d, d < 3 * n → t.opp[phi p d]! = inv → edgeSeams[i]![phi p d]! = true) →
+        ∀ dvc a, buildAttConn dc2v dopp dvc seams[i]! = .ok a →
+          a.edgeSeam.size = 3 * n ∧ ∀ d, d < 3 * n → a.edgeSeam[d]! = edgeSeams[i]![phi p d]! :=
+  seam_flags_correspond h hC hns hinvol edgeSeams encs seamBits decs he hds hy
+
+open Draco.EbEnc Draco.EbEnc.Seams in
+/-- non-vacuity: two triangles sharing an edge, two attribute data (the edge is a seam of the first only); with
+    bit decoders opened on the encoder's buffers the decoder finds the corners 0 1 2 3 4 resp. 0 1 3 4 -/
+example : ∃ decs seams tags, decs.size = 2 ∧ decodeSeams false exDopp 2 2 decs = .ok (seams, tags) ∧
+    seams[0]!.toList = [0, 1, 2, 3, 4] ∧ seams[1]!.toList = [0, 1, 3, 4] := exA
+
+open Draco.EbEnc Draco.EbEnc.Seams in
+example : ∃ s, markSeams exDc2v exDopp #[0, 1, 2, 5] #[0, 1, 2, 3, 4] = .ok s ∧
+    ∀ d, d < 6 → s.1[d]! = exES[0]![phi #[3, 1] d]! := exB
+
+open Draco.EbEnc in
+/-- (b) the structural hypotheses `oppInvol` / `hedge` of `eb_value_block_conditional_iso` hold for every decoder view
+    that is `TVIso` to the BASE view of a table made by the proved `CornerTable.create` (the encoder's table) -/
+theorem eb_base_view_structural {faces : Faces} {table : CornerTable}
+    (hc : CornerTable.create faces = some table) {d : TView} {φ ψ : Nat → Nat}
+    (h : TVIso d (CT.ofTable table).view φ ψ) : OppInvol d ∧ Hedge d :=
+  structural_of_create hc h
 
 open Draco.EbEnc in
 /-- (b) **CTIso as a proposition**: the Boolean checker the op evaluates on every case (`iso-ok`) implies the
